@@ -20,6 +20,8 @@ func init() {
 }
 
 func runC12(r *engine.Run) {
+	r.Rule("FRESH-keybuf", "see C10: a node's key - and a leaf's value bytes, which are the slice the caller handed to Put - is never the base of an append: rewriting the bytes in place changes every other holder of the slice behind its cached hash, which the separately decoded partial trie does not share")
+	r.Rule("FRESH-resolved", "see C09: the node resolveHashNode hands to the walk is freshly decoded and kept nowhere else (a decoded-node cache gives two positions with the same hash one object in the source trie, two in the partial trie: an in-place update diverges them)")
 	r.Rule("AGREE-branches", "in GetPath every path from entry to the collection of nodes passes through one of the two marking loops (the parallel one over a branch root's children or the sequential one from the root): for every number of requested keys and every root kind the requested paths are marked before the export is assembled")
 	r.Rule("AGREE-embed", "writer and reader of the embedded shared-prefix child agree: routingNode.Serialize appends child hash, big-endian child weight, value hash, key in that order and DeserializeNode reads offsets [0:32], [32:40], [40:72], [72:] with the same byte order; collectNodes emits and deserializeTrie consumes in the same pre-order (node first, then children by ascending index / the single value)")
 	r.Rule("AGREE-linkback", "whenever markToCollect is called on a position read from a node (a branch's child slot, a shared-prefix node's value) its result is stored back into that same slot: a child that had to be loaded from storage becomes part of the trie that is exported")
@@ -63,6 +65,8 @@ func runC12(r *engine.Run) {
 	agreeCopyRoot(r, "AGREE-copyroot")
 	agreeSlotPos(r, "AGREE-slotpos")
 	refShortRef(r, "REF-shortref")
+	freshKeyBuf(r, "FRESH-keybuf")
+	freshResolved(r, "FRESH-resolved")
 }
 
 func exhWSubset(r *engine.Run, rule string, name string) {
